@@ -132,7 +132,10 @@ static void item_fn(void *ctxt)
 	}
 	case B_CHILD: {
 		/* ping-pong: resubmit to the same queue from inside an item (the DIRTY window) */
-		item_t *c = new_item(K_ASYNC, it->client, B_NONE);
+		/* every asynchronous entry point from inside a work item too: a pool thread has a non-empty continuation
+		 * cache there, which is a different path through dispatch_async_f / dispatch_barrier_async_f (seed C01-6) */
+		unsigned ck = (unsigned)(vrt_rand() % 4);
+		item_t *c = new_item(ck == 0 ? K_BASYNC : ck == 1 ? K_GASYNC : K_ASYNC, it->client, B_NONE);
 		if (c) { it->child = c->id; submit(c); }
 		break;
 	}
